@@ -135,6 +135,10 @@ def run(ctx):
     # the meta lock, or inside its warmer) while the writer commits k+1 and the second thread reloads
     vlib.mc_check(ctx, "ReloadProto", "ReloadProto.cfg", timeout=120, workers=2)
     vlib.mc_check(ctx, "ReloadProto", "ReloadProto_negF48.cfg", expect_violation="NeverMovesBack", timeout=120, workers=2)
+    if not ctx.quick:
+        # five reloading threads, seven commits (375,276 states, depth 25) and the negative twin
+        vlib.mc_check(ctx, "ReloadProto", "ReloadProto_deep.cfg", timeout=600, workers=6)
+        vlib.mc_check(ctx, "ReloadProto", "ReloadProto_deep_negF48.cfg", expect_violation="NeverMovesBack", timeout=300, workers=4)
     # unbounded: IndInv (published = exposed <= commit; a thread that is not idle holds the reload lock and loaded a commit
     # between exposed and the newest) is inductive for any number of commits (4 threads) - Apalache; without the lock it is not
     ok_ind = vlib.apalache_inductive(ctx, "ReloadProtoInd", ["ReloadProto.tla", "ReloadProtoInd.tla"], "ConstInit", "IndInv")
